@@ -373,7 +373,8 @@ def _run(ctx):
         "Job exists; where the text is open -- same element count but different shape, or a length mismatch under an empty outer "
         "product -- both rejection and the positional pairing are accepted). A sample of the same requests is run end to end through "
         "Task.split -> Submitter -> implicit Split workflow -> NodeExecution._split_task -> Job.run on the debug worker with a task "
-        "that returns everything it received, two non-split fields included."
+        "that returns everything it received, two non-split fields included. 'Before any job runs' is read as: the task body never ran and no "
+        "job directory of the task exists (the directory of the implicit wrapper workflow is not counted as a job of the task)."
     )
     rnd = random.Random(ctx.seed)
     w = ctx.pick(1, 1)
